@@ -21,11 +21,16 @@ pub fn run(v: &serde_json::Value, rep: &mut Report) -> Result<(), String> {
     let ns = uuid::Uuid::parse_str("6ba7b810-9dad-11d1-80b4-00c04fd430c8").unwrap();
     let executed = Arc::new(std::sync::atomic::AtomicU64::new(0));
     let ex2 = executed.clone();
+    // the order as the racing match left it (None: filled / no longer resting)
+    let after_match: Arc<std::sync::Mutex<Option<pricelevel::OrderType<()>>>> = Arc::new(std::sync::Mutex::new(None));
+    let am2 = after_match.clone();
+    let the_id = o.id();
     pricelevel::verif_hook::set_hook(Some(Box::new(move |point: &str| {
         if point == "amend.after_find" {
             let g = UuidGenerator::new(ns);
             let r = l2.match_order(match_qty, oid(777), &g);
             ex2.store(r.transactions.as_vec().iter().map(|t| t.quantity).sum(), std::sync::atomic::Ordering::SeqCst);
+            *am2.lock().unwrap() = l2.iter_orders().iter().find(|x| x.id() == the_id).map(|a| **a);
         }
     })));
     let _ = level.update_order(OrderUpdate::UpdateQuantity { order_id: o.id(), new_quantity: new_qty });
@@ -36,6 +41,17 @@ pub fn run(v: &serde_json::Value, rep: &mut Report) -> Result<(), String> {
     let what = format!("schedule: amend(find) | match {match_qty} (executed {}) | amend(remove..push) to {new_qty}", executed.load(std::sync::atomic::Ordering::SeqCst));
     if level.visible_quantity() as u128 != sv || level.hidden_quantity() as u128 != sh || level.order_count() != ls.len() {
         rep.violation("C03", "conc.aggregates_equal_sums_at_quiescence", format!("{what}: visible_quantity()={} hidden_quantity()={} order_count()={} but resting orders sum to visible={sv} hidden={sh} count={}", level.visible_quantity(), level.hidden_quantity(), level.order_count(), ls.len()));
+    }
+    // per-order conservation (C03): the amendment applies to the order as the match left it - what rests afterwards
+    // is with_reduced_quantity (the real function, under its own C07 contract) of THAT order, so that
+    // supplied (as amended) = executed + resting; quantity that was already executed must not rest again
+    {
+        let resting = ls.iter().find(|x| x.id() == the_id).map(|a| **a);
+        let want = after_match.lock().unwrap().map(|m| m.with_reduced_quantity(new_qty));
+        let tot = |x: &Option<pricelevel::OrderType<()>>| x.map(|o| (o.visible_quantity(), o.hidden_quantity()));
+        if tot(&resting) != tot(&want) {
+            rep.violation("C03", "conc.per_order_supplied_equals_executed_plus_resting", format!("{what}: the match left the order as {:?}; amending THAT order gives (visible, hidden)={:?}, but the level now rests {:?}", *after_match.lock().unwrap(), tot(&want), tot(&resting)));
+        }
     }
     if level.visible_quantity() as u128 > supplied || level.hidden_quantity() as u128 > supplied {
         rep.violation("C12", "conc.reader_never_sees_wrapped_aggregate", format!("{what}: a reader now obtains visible_quantity()={} although only {supplied} was ever supplied", level.visible_quantity()));
